@@ -15,6 +15,7 @@ THEOREMS = [
     "RedunModel.C12.raising_body_fails",
     "RedunModel.C12.not_swallowed_list",
     "RedunModel.C12.not_swallowed_call",
+    "RedunModel.C12.not_swallowed_default",
     "RedunModel.C12.error_only_from_cse",
     "RedunModel.C12.cse_needs_same_execution",
     "RedunModel.C12.not_replayed",
